@@ -53,7 +53,11 @@ def panel(name, seed=0):
     return _frame(_trend(5, 24, 7)), 7
   if name == 'P11':    # 4 geos of comparable size (subset sums interleave)
     return _frame(_trend(4, 24, 8, scale=[3.0, 2.8, 2.7, 1.5])), 7
+  if name == 'P12':    # multi-digit integer ids; two geos with exactly tied
+    s = _trend(4, 24, 9, scale=[1.0, 2.0, 2.0, 3.0], noise=2.0)   # means
+    s[2] = s[1][::-1].copy()
+    return _frame(s, ids=[2, 7, 10, 33]), 7
   raise KeyError(name)
 
 
-ALL = ['P1', 'P2', 'P3', 'P4', 'P5', 'P6', 'P7', 'P8', 'P9', 'P10', 'P11']
+ALL = ['P1', 'P2', 'P3', 'P4', 'P5', 'P6', 'P7', 'P8', 'P9', 'P10', 'P11', 'P12']
